@@ -103,7 +103,7 @@ func CalculateAmountToClaim(
 	} else {
 		// calculate based on flow rate and remaining deposit
 		timeSinceLast := nowTime.Sub(lastOutflowTime)
-		secondsSinceLast := int64(timeSinceLast.Seconds())
+		secondsSinceLast := int64(timeSinceLast / time.Second)
 		numCoins := secondsSinceLast * flowRate
 		amountToClaim = sdk.NewCoin(deposit.Denom, sdk.NewIntFromUint64(uint64(numCoins)))
 		if deposit.Amount.GT(amountToClaim.Amount) {
